@@ -30,10 +30,11 @@ ASSUMPTIONS = [
     "is accepted from the protocol layer in the very cycle the LBAD is decoded; LGOOD only for headers already sent",
     "after a link-command mismatch (LCRD out of order, LGOOD with an unexpected number) the link leaves U0: the "
     "ghost checks that recovery is requested and stops checking",
-    "a header already handed to the raw transmitter when the LBAD arrives may complete as a first transmission "
-    "before the retransmission starts (it is retransmitted afterwards)",
+    "a header already on the wire when the LBAD arrives completes as a first transmission; a header first offered "
+    "between the LBAD and our LRTY is discarded by the partner (it has not seen the LRTY yet), so only its sequence "
+    "number (an accepted, unacknowledged header) is checked; the retransmission proper is what follows the LRTY",
 ]
-BOUNDS = "BMC from reset: quick K=30 (clean layer) / K=14 (corruption free) ; thorough K=40 / K=20 / K=22 free (best effort)"
+BOUNDS = "BMC from reset: quick K=26 (clean layer) / K=12 (corruption free) / K=12 free (best effort); thorough K=36 / K=18 / K=20"
 OUTSIDE = "DATA headers with payload (C36); disable/enable of the transmitter; credit timeout (5 ms); partner LGOODs " \
           "overlapping a retry"
 
@@ -178,16 +179,18 @@ class HeaderTxHarness(Harness):
         # handed to the raw transmitter before the retry became effective completes as a first transmission
         prev_offer = Signal(name="g_prev_offer")
         offer_start = Signal(name="g_offer_start")
-        cur_is_retx = Signal(name="g_cur_is_retx")
+        cur_mode = Signal(2, name="g_cur_mode")   # 0 normal, 1 offered between LBAD and LRTY (the partner ignores it), 2 retransmission
         m.d.comb += offer_start.eq(src.valid & (widx == 0) & ~prev_offer)
         m.d.ss += prev_offer.eq(src.valid & (widx == 0) & ~self.ready)
         with m.If(offer_start):
-            m.d.ss += cur_is_retx.eq(retx_active & ~retry_wait)
+            m.d.ss += cur_mode.eq(Mux(retx_active, Mux(retry_wait, 1, 2), 0))
         retx_hit = Signal(name="g_retx_hit")       # this header is the expected retransmission
+        limbo = Signal(name="g_limbo")             # header the partner discards (it has not seen our LRTY yet)
         first_tx = Signal(name="first_tx")         # first transmission of a header (counts g_tx)
         m.d.comb += [
-            retx_hit.eq(ev_hdr & cur_is_retx & retx_active),
-            first_tx.eq(ev_hdr & (~retx_hit | ((retx_ptr == g_tx) & (n_untx != 0)))),
+            retx_hit.eq(ev_hdr & (cur_mode == 2) & retx_active),
+            limbo.eq(ev_hdr & (cur_mode == 1)),
+            first_tx.eq(ev_hdr & ~limbo & (~retx_hit | ((retx_ptr == g_tx) & (n_untx != 0)))),
         ]
         with m.If(first_tx):
             m.d.ss += [g_tx.eq(g_tx + 1), n_sent.eq(n_sent + 1)]
@@ -220,9 +223,10 @@ class HeaderTxHarness(Harness):
             self.v["ready_when_credit"].eq(ok & (dut.queue.ready != (bring & (credits != 0)))),
             # numbering / order: first transmissions consecutive from the advertised number, only accepted headers;
             # retransmissions start at the oldest unacknowledged header, in order
-            self.v["tx_order"].eq(ok & ev_hdr & Mux(retx_hit, w_seq != retx_ptr, (w_seq != g_tx) | (n_untx == 0))),
+            self.v["tx_order"].eq(ok & ev_hdr & Mux(limbo, ((w_seq - g_ack)[0:3] >= n_out),
+                                                    Mux(retx_hit, w_seq != retx_ptr, (w_seq != g_tx) | (n_untx == 0)))),
             # delayed flag: set on every retransmission; the header's own flag otherwise (tracked header)
-            self.v["dl_flag"].eq(ok & ev_hdr & Mux(retx_hit, ~w_dl, is_trk & (w_dl != trk[105]) & ~(w_dl & trk_lbad))),
+            self.v["dl_flag"].eq(ok & ev_hdr & ~limbo & Mux(retx_hit, ~w_dl, is_trk & (w_dl != trk[105]) & ~(w_dl & trk_lbad))),
             # content of the tracked header, first transmission and retransmission alike
             self.v["tx_content"].eq(ok & ev_hdr & is_trk & ((Cat(*cap) != trk[0:96]) | (w_rest != Cat(trk[99:105], trk[106])))),
             # mismatching LCRD / LGOOD -> recovery requested
@@ -270,14 +274,14 @@ def queries(tier):
     f = HeaderTxHarness
     clean = {"ready": 1, "lc_gap": 0, "lc_mask": 0}
     hint = {"*": {"lc_gap": 0, "lc_mask": 0}}
-    qs = [Query("bmc_clean", f, 30 if quick else 40, layer=clean, split=False, timeout=900, hints=hint,
+    qs = [Query("bmc_clean", f, 26 if quick else 36, layer=clean, split=False, timeout=3000, hints=hint,
                 covers=["two_headers_sent", "retransmit_dl", "retire_then_reuse", "tracked_sent", "mismatch"] +
                        ([] if quick else ["retx_two", "fifth_header"]),
                 desc="layer: PHY always ready, partner commands uncorrupted and without invalid cycles; command kinds, "
                      "subtypes, timing, header queue (valid and content), LRTY timing free"),
-          Query("bmc_corrupt", f, 14 if quick else 20, layer={"ready": 1}, split=False, timeout=900, covers=[],
+          Query("bmc_corrupt", f, 12 if quick else 18, layer={"ready": 1}, split=False, timeout=2000, covers=[],
                 desc="layer: PHY always ready; corruption masks and invalid cycles in the partner stream free (shallow)"),
-          Query("bmc_free", f, 14 if quick else 22, split=False, timeout=900, covers=[], required=False,
+          Query("bmc_free", f, 12 if quick else 20, split=False, timeout=600 if quick else 2000, covers=[], required=False,
                 desc="best effort: everything free incl. PHY ready")]
     qs.append(Query("cosim", f, 0, kind="cosim", cosim_cycles=200 if quick else 1000))
     return qs
